@@ -184,6 +184,185 @@ def _splat_literal_dicts(tree: ast.AST) -> None:
                     k += 1
 
 
+def _dissolve_namedtuples(trees) -> None:
+    """private NamedTuple classes used as throw-away records: `a, b = _Rec(f=x, g=y)` is `a, b = x, y` (field order), and a local
+    `r = _Rec(..)` that is only read as `r.f` / `r.g` or unpacked is replaced by one local per field.  Only classes whose name
+    starts with an underscore and which define no methods are dissolved."""
+    recs: Dict[str, List[str]] = {}
+    for t in trees:
+        for c in ast.walk(t):
+            if isinstance(c, ast.ClassDef) and c.name.startswith("_") and any((isinstance(b, ast.Name) and b.id == "NamedTuple") or
+                                                                              (isinstance(b, ast.Attribute) and b.attr == "NamedTuple") for b in c.bases):
+                body = [x for x in c.body if not (isinstance(x, ast.Expr) and isinstance(x.value, ast.Constant))]
+                if body and all(isinstance(x, ast.AnnAssign) and isinstance(x.target, ast.Name) and x.value is None for x in body):
+                    recs[c.name] = [x.target.id for x in body]
+    _NT_RECS.clear()
+    _NT_RECS.update(recs)
+    if not recs:
+        return
+    for t in trees:
+        _dissolve_records_in(t)
+
+
+_NT_RECS: Dict[str, List[str]] = {}
+
+
+def _dissolve_records_in(t: ast.AST) -> None:
+    recs = _NT_RECS
+    if not recs:
+        return
+
+    def fields_of(call):
+        if not (isinstance(call, ast.Call) and isinstance(call.func, ast.Name) and call.func.id in recs):
+            return None
+        fl = recs[call.func.id]
+        vals = {}
+        for i, a in enumerate(call.args):
+            if isinstance(a, ast.Starred) or i >= len(fl):
+                return None
+            vals[fl[i]] = a
+        for kw in call.keywords:
+            if kw.arg is None or kw.arg not in fl or kw.arg in vals:
+                return None
+            vals[kw.arg] = kw.value
+        if set(vals) != set(fl):
+            return None
+        return [vals[f] for f in fl], fl
+    if True:
+        for fn in ast.walk(t):
+            if not isinstance(fn, (ast.FunctionDef, ast.AsyncFunctionDef)):
+                continue
+            # (1) direct unpacking
+            for n in ast.walk(fn):
+                if isinstance(n, ast.Assign) and len(n.targets) == 1 and isinstance(n.targets[0], (ast.Tuple, ast.List)):
+                    fv = fields_of(n.value)
+                    if fv is not None and len(n.targets[0].elts) == len(fv[0]):
+                        n.value = ast.copy_location(ast.Tuple(elts=fv[0], ctx=ast.Load()), n.value)
+                if isinstance(n, ast.Return):
+                    pass
+            # (2) a local record read field by field
+            stores: Dict[str, List[ast.Assign]] = {}
+            for n in ast.walk(fn):
+                if isinstance(n, ast.Assign) and len(n.targets) == 1 and isinstance(n.targets[0], ast.Name) and fields_of(n.value) is not None:
+                    stores.setdefault(n.targets[0].id, []).append(n)
+            parents = {}
+            for n in ast.walk(fn):
+                for c in ast.iter_child_nodes(n):
+                    parents[id(c)] = n
+            for v, sts in stores.items():
+                if len(sts) != 1:
+                    continue
+                n_store = sum(1 for n in ast.walk(fn) if isinstance(n, ast.Name) and n.id == v and isinstance(n.ctx, ast.Store))
+                loads = [n for n in ast.walk(fn) if isinstance(n, ast.Name) and n.id == v and isinstance(n.ctx, ast.Load)]
+                fl = recs[sts[0].value.func.id]
+                ok = n_store == 1 and all(isinstance(parents.get(id(n)), ast.Attribute) and parents[id(n)].attr in fl and isinstance(parents[id(n)].ctx, ast.Load) for n in loads)
+                if not ok:
+                    continue
+                vals, fl = fields_of(sts[0].value)
+                st = sts[0]
+                st.targets = [ast.Tuple(elts=[ast.Name(id=f"{v}__{f}", ctx=ast.Store()) for f in fl], ctx=ast.Store())]
+                st.value = ast.copy_location(ast.Tuple(elts=vals, ctx=ast.Load()), st.value)
+                for n in loads:
+                    a = parents[id(n)]
+                    a.__class__ = ast.Name
+                    a.id = f"{v}__{a.attr}"
+                    a.ctx = ast.Load()
+                    a._fields = ("id", "ctx")
+            ast.fix_missing_locations(fn)
+        # the stores created above are split like any other tuple store
+        _SplitTupleAssign().visit(t)
+
+
+def _sink_returns(tree: ast.AST) -> None:
+    """single-exit style back to one return per branch: `if c: r = a  else: r = b` / `try: .. r = a  except E: r = b  [else: r = c]`
+    followed directly by `return r` becomes a return in every branch (the rules were written against the multi-return form; the two
+    are the same program: r is assigned as the last thing of each branch and only read by the return)."""
+    def ends_with_store(block, name) -> bool:
+        if not block:
+            return False
+        last = block[-1]
+        if isinstance(last, (ast.Return, ast.Raise)):
+            return True
+        if isinstance(last, ast.Assign) and len(last.targets) == 1 and isinstance(last.targets[0], ast.Name) and last.targets[0].id == name:
+            return True
+        return sinkable(last, name)
+
+    def sinkable(st, name) -> bool:
+        if isinstance(st, ast.If):
+            return bool(st.orelse) and ends_with_store(st.body, name) and ends_with_store(st.orelse, name)
+        if isinstance(st, ast.Try) and not st.finalbody and st.handlers:
+            main = st.orelse if st.orelse else st.body
+            return ends_with_store(main, name) and all(ends_with_store(h.body, name) for h in st.handlers)
+        return False
+
+    def rewrite_block(block, name) -> None:
+        last = block[-1]
+        if isinstance(last, (ast.Return, ast.Raise)):
+            return
+        if isinstance(last, ast.Assign):
+            block[-1] = ast.copy_location(ast.Return(value=last.value), last)
+            return
+        rewrite(last, name)
+
+    def rewrite(st, name) -> None:
+        if isinstance(st, ast.If):
+            rewrite_block(st.body, name)
+            rewrite_block(st.orelse, name)
+        else:
+            rewrite_block(st.orelse if st.orelse else st.body, name)
+            for h in st.handlers:
+                rewrite_block(h.body, name)
+    import copy as _copy
+
+    def leaves(block) -> bool:
+        if not block:
+            return False
+        last = block[-1]
+        if isinstance(last, (ast.Return, ast.Raise)):
+            return True
+        if isinstance(last, ast.If):
+            return bool(last.orelse) and leaves(last.body) and leaves(last.orelse)
+        return False
+
+    def push_return(block, ret, depth=0) -> None:
+        """block ends with an `if` (possibly without else) and is followed by `ret`: every branch gets its own copy of the return"""
+        last = block[-1] if block else None
+        if isinstance(last, ast.If) and depth < 4 and not leaves([last]):
+            for br in ("body", "orelse"):
+                b = getattr(last, br)
+                if not leaves(b):
+                    if b and isinstance(b[-1], ast.If):
+                        push_return(b, ret, depth + 1)
+                    else:
+                        b.append(_copy.deepcopy(ret))
+            return
+        block.append(_copy.deepcopy(ret))
+    for fn in ast.walk(tree):
+        if not isinstance(fn, (ast.FunctionDef, ast.AsyncFunctionDef)):
+            continue
+        changed = True
+        while changed:
+            changed = False
+            body = fn.body
+            # tail duplication: `if c: A` (no else / falling through) followed by `return e`  ->  a return at the end of each branch
+            if len(body) >= 2 and isinstance(body[-1], ast.Return) and isinstance(body[-2], ast.If) and not leaves([body[-2]]) \
+                    and not any(isinstance(n, (ast.For, ast.While, ast.Try, ast.With, ast.FunctionDef, ast.Lambda)) for n in ast.walk(body[-2])) \
+                    and sum(1 for n in ast.walk(body[-1])) <= 40:
+                ret = body.pop()
+                push_return(body, ret)
+                changed = True
+                continue
+            if len(body) >= 2 and isinstance(body[-1], ast.Return) and isinstance(body[-1].value, ast.Name):
+                name = body[-1].value.id
+                prev = body[-2]
+                # the name must not be read anywhere else (a closure, a later statement): only stores and the final return
+                loads = sum(1 for n in ast.walk(fn) if isinstance(n, ast.Name) and n.id == name and isinstance(n.ctx, ast.Load))
+                if loads == 1 and sinkable(prev, name):
+                    rewrite(prev, name)
+                    body.pop()
+                    changed = True
+
+
 class _SplitTupleAssign(ast.NodeTransformer):
     """`a, b = x, y` is `a = x; b = y` when no target is read on the right (not a swap): the rules look at one store at a
     time.  Name targets with arbitrary right-hand sides (evaluation order is kept); self.<attr> targets only with plain
@@ -198,14 +377,17 @@ class _SplitTupleAssign(ast.NodeTransformer):
             return n
         names_ok = all(isinstance(t, ast.Name) for t in ts)
         attrs_ok = all(isinstance(t, ast.Name) or (isinstance(t, ast.Attribute) and isinstance(t.value, ast.Name) and t.value.id == "self") for t in ts) \
-            and all(isinstance(v, (ast.Name, ast.Constant)) for v in vs)
+            and (all(isinstance(v, (ast.Name, ast.Constant)) for v in vs) or not any(isinstance(k, ast.Name) and k.id == "self" for v in vs for k in ast.walk(v)))
         if not (names_ok or attrs_ok):
             return n
         tnames = {t.id for t in ts if isinstance(t, ast.Name)}
         if len(tnames) != sum(1 for t in ts if isinstance(t, ast.Name)):
             return n
-        if any(isinstance(k, ast.Name) and k.id in tnames for v in vs for k in ast.walk(v)):
-            return n
+        # sequential stores evaluate element j after targets 0..j-1 were bound: a target must not be read by a LATER element
+        # (`x, y = f(x), g(y)` is fine, a swap `a, b = b, a` is not)
+        for i_, t in enumerate(ts):
+            if isinstance(t, ast.Name) and any(isinstance(k, ast.Name) and k.id == t.id for v in vs[i_ + 1:] for k in ast.walk(v)):
+                return n
         return [ast.copy_location(ast.Assign(targets=[t], value=v), n) for t, v in zip(ts, vs)]
 
 
@@ -251,10 +433,12 @@ class Program:
                     raise AnalysisError(f"cannot parse {path}: {e}")
                 tree = _SplitTupleAssign().visit(tree)
                 _splat_literal_dicts(tree)
+                _sink_returns(tree)
                 mod = Module(name, path, tree, src)
                 mod.is_pkg = fn == "__init__.py"
                 self.modules[name] = mod
         self.digest = h.hexdigest()
+        _dissolve_namedtuples([m.tree for m in self.modules.values()])
         for mod in self.modules.values():
             self._index_module(mod)
 
